@@ -308,6 +308,15 @@ pub fn gen(seed: u64, tier: &str) -> Vec<Value> {
         for b in whole { if b.len() > 2 { bodies.push(b[..b.len() - 1].to_vec()); } }
         for b in bodies { out.push(json!({"form":"hostile","class":"hostile_any_shapes","code":10,"msg":str_json("m"),"bytes":bytes_json(&b),"details":[]})); }
     }
+    // damaged details: a valid list of two or three details cut short at every length, or followed by bytes that are no protobuf.
+    // What begins with a complete detail and is undecodable as a whole is still undecodable: an error or an empty result, not a shorter list
+    for q in 0..(if tier == "thorough" { 8 } else { 2 }) {
+        let d: Vec<ErrorDetail> = (0..(2 + q % 2)).map(|j| from_json(&rand_detail(&mut rng, (3 * q + 4 * j + 5) % 10))).collect();
+        let whole = Status::with_error_details_vec(Code::Aborted, "m", d).details().to_vec();
+        for cut in 1..whole.len() { out.push(json!({"form":"hostile","class":"truncated_details","code":10,"msg":str_json("m"),"bytes":bytes_json(&whole[..cut]),"details":[]})); }
+        for tail in [&[0xffu8, 0xff, 0xff][..], &[0x1a, 0x7f][..], &[0x0a][..]] { let mut b = whole.clone(); b.extend_from_slice(tail);
+            out.push(json!({"form":"hostile","class":"details_with_garbage_tail","code":10,"msg":str_json("m"),"bytes":bytes_json(&b),"details":[]})); }
+    }
     // hostile details bytes
     let n = if tier == "thorough" { 4000 } else { 500 };
     for _ in 0..n {
